@@ -118,7 +118,11 @@ def add_glue_as_needed(*, _sys_modules_len_cache: list[int] = [0]) -> None:
         for module_name in module_names:
             builtin_fn = builtin_glue_pending.pop(module_name, None)
             try:
-                module_fn = sys.modules[module_name].__dict__.pop(
+                module = sys.modules[module_name]
+                # (object.__getattribute__: so that a lazily loaded module,
+                # whose own __getattribute__ would load it at the first
+                # touch, is left alone until the program uses it)
+                module_fn = object.__getattribute__(module, "__dict__").pop(
                     "_stackscope_install_glue_", None
                 )
             except Exception:  # module disappeared, doesn't have a dict, etc
